@@ -33,7 +33,7 @@ def run(tier):
     R.add_registry(reg)
     jobs = [dict(fn="props.events:job_handle_events", label="%s/handle_events[n=%d]" % (PID, n), kwargs=dict(prop=PID, n=n)) for n in (1, 2)]
     for n, terms, d in EC.configs(tier, "terminal"):
-        jobs.append(dict(fn="props.integrate_events:job_events", label="%s/%s" % (PID, IE.config_label(n, terms, d)), kwargs=dict(prop=PID, n=n, terminals=list(terms), direction=d)))
+        jobs.extend(IE.event_jobs(PID, n, terms, d))
     jobs.append(dict(fn="props.integrate_events:job_recursive", label=PID + "/integrate[no-events]", kwargs=dict(prop=PID)))
     jobs.append(dict(fn="props.integrate_events:job_status", label=PID + "/status", kwargs=dict(prop=PID)))
     EC.obligations_of(reg, R, jobs)
